@@ -43,13 +43,15 @@ def _value_str(v):
     if v.is_Number and v.is_real is False and v.is_finite is False:
         return str(v)
     try:
-        w = v.expand(complex=True)
-        if w.is_Rational:
-            return f"{w.p}/{w.q}"
-        c = complex(sympy.N(w, 50))
-        r = sympy.N(sympy.re(w), 45)
-        i = sympy.N(sympy.im(w), 45)
-        if abs(c.imag) < 1e-30 * max(1.0, abs(c.real)):
+        c = sympy.N(v, 50)
+        if not c.is_number or c.has(sympy.nan, sympy.zoo, sympy.oo):
+            w = v.expand(complex=True)
+            if w.is_Rational:
+                return f"{w.p}/{w.q}"
+            c = sympy.N(w, 50)
+        r, i = c.as_real_imag()
+        r, i = sympy.Float(r, 45), sympy.Float(i, 45)
+        if abs(i) < sympy.Float("1e-30") * max(1, abs(r)):
             return "~" + sympy.Float(r, 40).__str__()
         return "~" + sympy.Float(r, 40).__str__() + "+I*" + sympy.Float(i, 40).__str__()
     except Exception:  # noqa
